@@ -1,6 +1,6 @@
 #!/bin/bash
 # tools/try_seed2.sh <ID> [tier]: confirm a round-2 seed (/tmp/seed2_<ID>): demo fails with / passes without the patch on a copy of /repo, then run the check
-ID=$1; TIER=${2:-quick}; W=/tmp/seed2_$ID
+ID=$1; TIER=${2:-quick}; W=/tmp/seed${ROUND:-2}_$ID
 S=$(mktemp -d /tmp/vf_s2_XXXXXX)
 rsync -a --exclude .git --exclude '__pycache__' /repo/src "$S/"
 ( cd "$S" && PYTHONPATH=$S/src timeout 600 /venv/bin/python $W/demo_$ID.py >/dev/null 2>&1 ); echo "demo on /repo copy (expect 0): rc=$?"
